@@ -75,15 +75,25 @@ ImplCandidates(W, M, call) ==
 (* push-down on re-registration of an identical Signature (incl. priority) *)
 Tiebreak(M, m) == 0 - Cardinality({x \in M : SigNP(x) = SigNP(m) /\ x.prio = m.prio /\ x.reg > m.reg})
 
-SpecOf(W, M, m, call) ==
+(* LV[p] : the level function (type -> level) in force for supplied key p - *)
+(* freshly computed, or a per-position cache snapshot (Table.tla)           *)
+FreshLV(W, M, call) ==
   [p \in 1..(Len(call.pos) + Len(call.kwn)) |->
      IF p <= Len(call.pos)
-     THEN LevelsSym(W, AvailPos(W, M, p, call.pos[p].c))[m.pos[p]]
+     THEN LevelsSym(W, AvailPos(W, M, p, call.pos[p].c))
      ELSE LET q == p - Len(call.pos) IN
-          LevelsSym(W, AvailKw(W, M, call.kwn[q], call.kwa[q].c))[m.kwt[KwIdx(m, call.kwn[q])]]]
+          LevelsSym(W, AvailKw(W, M, call.kwn[q], call.kwa[q].c))]
 
-Cand(W, M, m, call) ==
-  [m |-> m.id, prio |-> m.prio, spec |-> SpecOf(W, M, m, call), tb |-> Tiebreak(M, m)]
+SpecOfL(LV, m, call) ==
+  [p \in 1..(Len(call.pos) + Len(call.kwn)) |->
+     IF p <= Len(call.pos) THEN LV[p][m.pos[p]]
+     ELSE LV[p][m.kwt[KwIdx(m, call.kwn[p - Len(call.pos)])]]]
+
+CandL(LV, M, m, call) ==
+  [m |-> m.id, prio |-> m.prio, spec |-> SpecOfL(LV, m, call), tb |-> Tiebreak(M, m)]
+
+SpecOf(W, M, m, call) == SpecOfL(FreshLV(W, M, call), m, call)
+Cand(W, M, m, call) == CandL(FreshLV(W, M, call), M, m, call)
 
 Dominates(a, b) ==
   IF a.prio > b.prio THEN TRUE
@@ -113,8 +123,13 @@ Pull(L, P) ==
            nd   == SelectSeq(rest, LAMBDA c2 : ~Dominates(c1, c2))
        IN <<(<<c1>> \o nd)>> \o Pull(rest, P \cup Range(nd))
 
-CandSet(W, M, call) == {Cand(W, M, m, call) : m \in ImplCandidates(W, M, call)}
-RankLists(W, M, call) == {Pull(L, {}) : L \in AllSorted(CandSet(W, M, call))}
+CandSetL(W, M, call, LV) ==
+  {CandL(LV, M, m, call) : m \in {x \in ImplCandidates(W, M, call) :
+      \A p \in 1..(Len(call.pos) + Len(call.kwn)) :
+         (IF p <= Len(call.pos) THEN x.pos[p] ELSE x.kwt[KwIdx(x, call.kwn[p - Len(call.pos)])]) \in DOMAIN LV[p]}}
+RankListsL(W, M, call, LV) == {Pull(L, {}) : L \in AllSorted(CandSetL(W, M, call, LV))}
+CandSet(W, M, call) == CandSetL(W, M, call, FreshLV(W, M, call))
+RankLists(W, M, call) == RankListsL(W, M, call, FreshLV(W, M, call))
 
 (* outcome of a direct call under one rank list *)
 ImplOutcomeOf(ranks) ==
